@@ -59,13 +59,21 @@ Fixpoint delivers (q : rs) (hs : list Z) : Res rs :=
   | h :: t => q' <- deliver q h ;; delivers q' t
   end.
 
+Definition cap_now (b : bool) (t : Z) (a1 : option Z) : option Z :=
+  if b then match a1 with Some a => Some (Z.min a t) | None => None end else a1.
+
 (* "record packet as received" *)
 Definition record (s : space) (pn : Z) (elic : bool) (t d : Z) : space :=
   if disc s then s else
   let newl := pn >? lrp s in
+  let q' := add pn (pn + 1) (aq s) in
+  let a1 := if elic then match ack_at s with None => Some (t + d) | Some a => Some a end else ack_at s in
+  (* docs/C12-fix-2.patch (probed from the source: CAP_ACK_NOW): once MAX_ACK_RANGES ranges are queued a pending ACK
+     is due now -- `if space.ack_at is not None and len(space.ack_queue) >= MAX_ACK_RANGES: ack_at = min(ack_at, now)` *)
+  let a2 := cap_now (CAP_ACK_NOW && (Zlen q' >=? MAX_ACK_RANGES)) t a1 in
   mkSp (app s)
-       (add pn (pn + 1) (aq s))
-       (if elic then match ack_at s with None => Some (t + d) | Some a => Some a end else ack_at s)
+       q'
+       a2
        (if newl then pn else lrp s)
        (if newl then t else lrt s)
        (disc s) (complete s) (closing s)
@@ -114,14 +122,14 @@ Definition write_ack (s : space) (delay room : Z) : sres * space :=
   end.
 
 (* the ACK part of one datagrams_to_send(now = t) for this space, given that a packet of the space can be started:
-   _write_application: pacing is skipped only when `ack_at < now`; the ACK is written when the handshake is
-   complete and `ack_at <= now`;  _write_handshake: whenever ack_at is set *)
+   _write_application: pacing is skipped only when `ack_at < now` (with docs/C12-fix-2.patch, probed as PACING_LE:
+   when `ack_at <= now`); the ACK is written when the handshake is complete and `ack_at <= now`;  _write_handshake: whenever ack_at is set *)
 Definition send (s : space) (t delay room : Z) (blocked : bool) : sres * space :=
   let s := set_clk s t in
   if closing s then (SNothing 0, s) else
   if disc s then (SNothing 4, s) else
   if app s then
-    let overdue := match ack_at s with Some a => a <? t | None => false end in
+    let overdue := match ack_at s with Some a => if PACING_LE then a <=? t else a <? t | None => false end in
     if negb overdue && blocked then (SNothing 1, s)
     else if complete s then
       match ack_at s with
